@@ -118,7 +118,10 @@ class StmtMixin:
         exc = []
         outs = []
         for s2, v in self.ev(s.value, st, exc):
-            self.check_alias(s.value, v)
+            if not all(isinstance(t, ast.Attribute) for t in s.targets):
+                self.check_alias(s.value, v)
+            elif v.ty.kind in ("list", "dict") and isinstance(s.value, (ast.Name, ast.Attribute)):
+                self.note("list/dict stored into a field by reference is modelled as a copy (%s)" % ast.unparse(s.value))
             for tgt in s.targets:
                 self.assign_to(tgt, v, s2, exc)
             outs.append(Outcome("normal", s2))
@@ -565,7 +568,7 @@ class StmtMixin:
             if i < pre:
                 keep.append(t)
                 continue
-            syms = smt.symbols(t.s) & consts
+            syms = {x for x in smt.symbols(t.s) & consts if not x.startswith(("H0_", "g0_", "glob_", "Alloc0"))}   # entry-state symbols are always live
             if syms <= live:
                 keep.append(t)
         st.pc = keep
